@@ -432,6 +432,24 @@ pub fn run(ctx: &mut Ctx) {
         d.extend_from_slice(&[0xdc, 0x00, 0x13]);
         arbitrary.push(d);
     }
+    // every prefix of every header variant (V0 magic + version, the legacy gzip header, a gzip
+    // member header with each flag byte)
+    let legacy = [31u8, 139, 8, 0, 0, 0, 0, 0, 0, 255];
+    for k in 0..=legacy.len() {
+        arbitrary.push(legacy[..k].to_vec());
+    }
+    for flags in [0u8, 1, 2, 4, 8, 16, 31, 32, 255] {
+        for k in 3..=10 {
+            let mut g = vec![31u8, 139, 8, flags, 1, 2, 3, 4, 0, 3];
+            g.truncate(k);
+            arbitrary.push(g);
+        }
+    }
+    let mut v0 = magic.to_vec();
+    v0.extend_from_slice(&[0, 0xdc, 0x00, 0x13]);
+    for k in 0..=v0.len() {
+        arbitrary.push(v0[..k].to_vec());
+    }
     // declared-length bombs right after the header
     for bomb in [
         vec![0xdb, 0xff, 0xff, 0xff, 0xff],
